@@ -135,6 +135,7 @@ loop:
 			break loop
 		}
 		if err != nil {
+			verifYield("run.startFailed", p.getName())
 			log.Error().Err(err).Msgf(`Failed to run command ["%v"] for process %s`, strings.Join(p.getCommand(), `" "`), p.getName())
 			p.logBuffer.Write(err.Error())
 			p.setExitCode(1)
